@@ -6,9 +6,11 @@ the re-parsing steps of the simplifier.
 import PoetryVerif.Proofs.ParserTotalSimp2
 import PoetryVerif.Proofs.MarkerPrintChars
 import PoetryVerif.Model.MarkerOps
+import PoetryVerif.Proofs.MarkerProjNames
 
 set_option linter.unusedSimpArgs false
 set_option linter.unusedVariables false
+set_option linter.unusedTactic false
 
 namespace Poetry.ParserTotal
 open Poetry Marker
@@ -1229,5 +1231,230 @@ theorem parseText_tok (s : String) (syn : Syn) (h : parseText s = .ok syn) : Syn
     · cases h; exact (parse_tok _).2 _ _ _ (by assumption)
     · cases h
   · cases h
+
+/-! ## markers that do not mention `python_version` / `python_full_version`: no lark error from the simplifier -/
+
+/-- the grammar's variable names other than the two python-version ones -/
+def nonPyNames : List String := names.filter (fun n => !isPyName n)
+
+mutual
+theorem good_and {G1 G2 : Leaf → Prop} : ∀ (m : M), M.Good G1 m → M.Good G2 m → M.Good (fun l => G1 l ∧ G2 l) m
+  | .any, _, _ => by simp
+  | .empty, _, _ => by simp
+  | .leaf l, h1, h2 => by simp only [M.good_leaf] at *; exact ⟨h1, h2⟩
+  | .multi ms, h1, h2 => by
+    simp only [M.good_multi] at *
+    exact goodAll_and ms h1 h2
+  | .union ms, h1, h2 => by
+    simp only [M.good_union] at *
+    exact goodAll_and ms h1 h2
+theorem goodAll_and {G1 G2 : Leaf → Prop} : ∀ (ms : List M), (∀ m ∈ ms, M.Good G1 m) → (∀ m ∈ ms, M.Good G2 m) →
+    ∀ m ∈ ms, M.Good (fun l => G1 l ∧ G2 l) m
+  | [], _, _ => by intro m hm; simp at hm
+  | x :: xs, h1, h2 => by
+    intro m hm
+    simp at hm
+    rcases hm with rfl | hm
+    · exact good_and m (h1 m (by simp)) (h2 m (by simp))
+    · exact goodAll_and xs (fun y hy => h1 y (by simp [hy])) (fun y hy => h2 y (by simp [hy])) m hm
+end
+
+/-- the invariant for markers without python-version leaves -/
+def NoPyOK (P : VC → Prop) (l : Leaf) : Prop := LeafOK P l ∧ Named nonPyNames l
+
+theorem nonPy_not_py : ∀ n ∈ nonPyNames, isPyName n = false := by decide
+
+theorem mergeNoSyntax_noPy {P : VC → Prop} (hvc : VCErrDocumented) (hP : VCOpsTotal P) :
+    MergeNoSyntax (NoPyOK P) := by
+  intro l1 l2 b h1 h2
+  have hn1 := nonPy_not_py _ h1.2.1
+  have hn2 := nonPy_not_py _ h2.2.1
+  have R := mergeLeaves_resS (sb := false) hvc hP l1 l2 b h1.1 h2.1 (.inr hn1)
+  have hp : ((l1.name == "python_version" && l2.name == "python_full_version") ||
+      (l1.name == "python_full_version" && l2.name == "python_version")) = false := by
+    cases hq : ((l1.name == "python_version" && l2.name == "python_full_version") ||
+      (l1.name == "python_full_version" && l2.name == "python_version")) with
+    | false => rfl
+    | true =>
+      exfalso
+      simp only [Bool.or_eq_true, Bool.and_eq_true, beq_iff_eq] at hq
+      rcases hq with ⟨h, _⟩ | ⟨h, _⟩ <;> (rw [h] at hn1; revert hn1; decide)
+  cases hm : mergeLeaves l1 l2 b with
+  | error e =>
+    rw [hm] at R
+    rcases R with h | h | ⟨hf, _⟩ | h | h
+    · exact .inl h
+    · exact .inr (.inl h)
+    · cases hf
+    · exact .inr (.inr (.inl h))
+    · exact .inr (.inr (.inr h))
+  | ok o =>
+    rw [hm] at R
+    show OptGood (NoPyOK P) o
+    intro r hr
+    subst hr
+    have hnamed := mergeSingle_nonpy_named nonPyNames 2 l1 l2 b r hp h1.2 h2.2 hm
+    exact good_and r (R r rfl) hnamed
+
+mutual
+/-- no item on `python_version` / `python_full_version` (decidable on the tree) -/
+def AtomNoPy : Marker.Atom → Bool
+  | .item n _ _ _ => !isPyName n
+  | .paren m => SynNoPy m
+def SynNoPy : Syn → Bool
+  | .one a => AtomNoPy a
+  | .more a _ rest => AtomNoPy a && SynNoPy rest
+end
+
+theorem alias_nonPy : ∀ n ∈ nonPyNames, aliasName n ∈ nonPyNames ∧ aliasName (aliasName n) = aliasName n := by
+  decide
+
+theorem mkSingle_name_alias (name cstr : String) (sw : Bool) (s : Single) (h : mkSingle name cstr sw = .ok s) :
+    s.name = aliasName name := mkSingle_name' name cstr sw s h
+
+mutual
+theorem compactAtom_named : ∀ (a : Marker.Atom) (m : M), AtomTok a → AtomNoPy a = true → compactAtom a = .ok m →
+    M.Good (Named nonPyNames) m
+  | .item n op v sw, m, ht, hp, h => by
+    unfold compactAtom at h
+    obtain ⟨s, hs, h⟩ := bind_ok _ _ _ h
+    simp only [pure, Except.pure, Except.ok.injEq] at h
+    subst h
+    have hn : n ∈ nonPyNames := by
+      unfold nonPyNames
+      exact List.mem_filter.2 ⟨ht.1, by simpa [AtomNoPy] using hp⟩
+    have := alias_nonPy n hn
+    simp only [M.good_leaf, Named, Leaf.name]
+    rw [mkSingle_name_alias _ _ _ _ hs]
+    exact this
+  | .paren syn, m, ht, hp, h => by
+    unfold compactAtom at h
+    obtain ⟨gs, hg, h⟩ := bind_ok _ _ _ h
+    simp only [pure, Except.pure, Except.ok.injEq] at h
+    subst h
+    apply mkUnion_good
+    intro x hx
+    simp only [List.mem_map] at hx
+    obtain ⟨g, hg', rfl⟩ := hx
+    exact groupMarker_good (compactGroups_named syn gs ht (by simpa [AtomNoPy] using hp) hg g hg')
+theorem compactGroups_named : ∀ (s : Syn) (gs : List (List M)), SynTok s → SynNoPy s = true →
+    compactGroups s = .ok gs → ∀ g ∈ gs, GL (Named nonPyNames) g
+  | .one a, gs, ht, hp, h => by
+    unfold compactGroups at h
+    obtain ⟨x, hx, h⟩ := bind_ok _ _ _ h
+    simp only [pure, Except.pure, Except.ok.injEq] at h
+    subst h
+    intro g hg
+    simp at hg; subst hg
+    exact single_good (compactAtom_named a x ht (by simpa [SynNoPy] using hp) hx)
+  | .more a isOr rest, gs, ht, hp, h => by
+    unfold compactGroups at h
+    obtain ⟨x, hx, h⟩ := bind_ok _ _ _ h
+    obtain ⟨gs', hgs, h⟩ := bind_ok _ _ _ h
+    simp only [SynNoPy, Bool.and_eq_true] at hp
+    have gx := compactAtom_named a x ht.1 hp.1 hx
+    have grest := compactGroups_named rest gs' ht.2 hp.2 hgs
+    split at h
+    · simp only [pure, Except.pure, Except.ok.injEq] at h
+      subst h
+      intro g hg
+      simp at hg
+      rcases hg with rfl | hg
+      · exact single_good gx
+      · exact grest g hg
+    · split at h
+      · rename_i g0 gs''
+        simp only [pure, Except.pure, Except.ok.injEq] at h
+        subst h
+        intro g hg
+        simp at hg
+        rcases hg with rfl | hg
+        · intro y hy
+          simp at hy
+          rcases hy with rfl | hy
+          · exact gx
+          · exact grest g0 (by simp) y hy
+        · exact grest g (by simp [hg])
+      · simp only [pure, Except.pure, Except.ok.injEq] at h
+        subst h
+        intro g hg
+        simp at hg; subst hg
+        exact single_good gx
+end
+
+theorem compactSubMarkers_noPy {P : VC → Prop} (hvc : VCErrDocumented) (hP : VCOpsTotal P) (syn : Syn)
+    (subs : List M) (ht : SynTok syn) (hp : SynNoPy syn = true) (h : compactSubMarkers syn = .ok subs) :
+    GL (NoPyOK P) subs := by
+  have h1 := compactSubMarkers_good hvc hP syn subs h
+  have h2 : GL (Named nonPyNames) subs := by
+    unfold compactSubMarkers at h
+    obtain ⟨gs, hg, h⟩ := bind_ok _ _ _ h
+    simp only [pure, Except.pure, Except.ok.injEq] at h
+    subst h
+    intro x hx
+    simp only [List.mem_map] at hx
+    obtain ⟨g, hg', rfl⟩ := hx
+    exact groupMarker_good (compactGroups_named syn gs ht hp hg g hg')
+  exact fun m hm => good_and m (h1 m hm) (h2 m hm)
+
+/-- `parse_marker` on a text that does not mention `python_version` / `python_full_version` -/
+theorem parseMarker_noPy {P : VC → Prop} (hvc : VCErrDocumented) (hP : VCOpsTotal P) (s : String) (syn : Syn)
+    (hp : parseText s = .ok syn) (hnp : SynNoPy syn = true) (e : PyErr) (h : parseMarker s = .error e) :
+    e = .fuel ∨ e = .recursion ∨ e = .value ∨ e = .unmodelled := by
+  rcases parseMarker_cases s _ h with ⟨_, h⟩ | ⟨_, _, h⟩ | ⟨_, _, _, h⟩
+  · cases h
+  · cases h
+  · rcases h with ⟨e', h1, h2⟩ | ⟨syn', e', h1, h2, h3⟩ | ⟨syn', subs, h1, h2, h3⟩
+    · rw [hp] at h1; cases h1
+    · cases h3
+      rcases compactSubMarkers_err hvc syn' _ h2 with h | h
+      · exact .inr (.inr (.inl h))
+      · exact .inr (.inr (.inr h))
+    · rw [hp] at h1; cases h1
+      exact unionF_no_syntax_of (mergeNoSyntax_noPy hvc hP) _ _ _
+        (compactSubMarkers_noPy hvc hP syn subs (parseText_tok s syn hp) hnp h2) e h3.symm
+
+theorem compactTop_noPy {P : VC → Prop} (hvc : VCErrDocumented) (hP : VCOpsTotal P) (syn : Syn)
+    (ht : SynTok syn) (hnp : SynNoPy syn = true) (e : PyErr) (h : Req.compactTop syn = .error e) :
+    e = .fuel ∨ e = .recursion ∨ e = .value ∨ e = .unmodelled := by
+  unfold Req.compactTop at h
+  rcases bind_err _ _ _ h with h | ⟨subs, hs, h⟩
+  · rcases compactSubMarkers_err hvc syn _ h with h | h
+    · exact .inr (.inr (.inl h))
+    · exact .inr (.inr (.inr h))
+  · exact unionF_no_syntax_of (mergeNoSyntax_noPy hvc hP) _ _ _
+      (compactSubMarkers_noPy hvc hP syn subs ht hnp hs) e h
+
+theorem takeTail_tok (s : List Char) (syn : Syn) (h : Req.takeTail s = some (some syn)) : SynTok syn := by
+  unfold Req.takeTail at h
+  split at h
+  · cases h
+  · split at h
+    · rename_i syn' hp
+      cases h
+      exact parseText_tok _ _ hp
+    · cases h
+  · cases h
+
+theorem parseRest_marker_tok (name : List Char) (es : List (List Char)) (r : List Char) (raw : Req.Raw)
+    (syn : Syn) (h : Req.parseRest name es r = some raw) (hm : raw.marker = some syn) : SynTok syn := by
+  unfold Req.parseRest at h
+  repeat' split at h
+  all_goals first
+    | (cases h; done)
+    | (simp only [Option.map_eq_some_iff] at h
+       obtain ⟨m, hm', rfl⟩ := h
+       have hm2 : m = some syn := hm
+       subst hm2
+       exact takeTail_tok _ _ hm')
+
+/-- the marker part of a requirement the grammar accepts carries token values -/
+theorem parseRaw_marker_tok (cs : List Char) (raw : Req.Raw) (syn : Syn) (h : Req.parseRaw cs = some raw)
+    (hm : raw.marker = some syn) : SynTok syn := by
+  unfold Req.parseRaw at h
+  repeat' split at h
+  all_goals first
+    | (cases h; done)
+    | exact parseRest_marker_tok _ _ _ _ _ h hm
 
 end Poetry.ParserTotal
